@@ -270,3 +270,23 @@ func VF_C05_scopes() {
 	vfAssert(len(grouperror.Collection(err)) == want, "one scope diagnostic per offending pair")
 	vfReach("C05_scopes")
 }
+
+func init() { vfRegister("VF_C08_scopes", VF_C08_scopes) }
+
+// VF_C08_scopes: scope diagnostics are independent of map iteration order.
+func VF_C08_scopes() {
+	a, b := vfStr("svc", 3), vfStr("svc", 3)
+	vfAssume(a != b && a != "" && b != "")
+	o := Output{Services: []Service{
+		{Name: a, Scope: ScopeShared, Args: []Arg{{DependsOnServices: []string{"c"}}}},
+		{Name: b, Scope: ScopeShared, Args: []Arg{{DependsOnServices: []string{"c"}}}},
+		{Name: "c", Scope: ScopeContextual},
+	}}
+	vfAssume(a != "c" && b != "c")
+	e1, e2 := ValidateServicesScopes(o), ValidateServicesScopes(o)
+	vfAssert(e1 != nil && e2 != nil, "both shared services are reported")
+	if e1 != nil && e2 != nil {
+		vfAssert(e1.Error() == e2.Error(), "scope diagnostics are independent of map iteration order")
+	}
+	vfReach("C08_scopes")
+}
